@@ -2,6 +2,7 @@ package checks
 
 import (
 	"fmt"
+	"github.com/opsidian/parsley/parsley"
 
 	"verifharness/internal/gram"
 	"verifharness/internal/run"
@@ -19,7 +20,9 @@ func c02case(c GCase, a *run.Acc) {
 	env := gram.NewEnv(c.In)
 	gd := gram.NewGuard(env.Base)
 	gd.MaxEvents, gd.MaxCalls = 150000, 150000
-	b := gram.Build(g, &gram.Hooks{Inside: gd.Inside, Outside: gd.Outside, MemoExpr: c.MemoExpr})
+	b := gram.Build(g, &gram.Hooks{Inside: gd.Inside, Outside: gd.Outside, MemoExpr: c.MemoExpr,
+		// the activation bound is claimed for EVERY memoized parser, also the extra wrappers around sub-expressions
+		UnderMemo: func(e *gram.Expr, p parsley.Parser) parsley.Parser { return gd.Inside(1000+e.ID, p) }})
 	o := gram.Run(env, b.NTs[c.NT], c.Pos)
 	a.Count("probe_events", int64(gd.Events))
 	a.Count("executions_of_memoized_parsers", int64(gd.Executed))
